@@ -287,6 +287,27 @@ Section Internal.
              end
     end.
 
+  (* the main loop and the epilogue of ExecuteInternal, from `Location starting_loc = loc;` on *)
+  Definition clip_run (starting_loc : location) : res (list location * results * list (nat * nat)) :=
+    s <- clip_loop main_fuel (mkSt 0 starting_loc Inside Inside [] []) ;;
+    let loc := s_loc s in let first := s_first s in let sl := s_sl s in let rs := s_rs s in
+    if is_inside first then
+      if negb (is_inside starting_loc) then
+        if rect_contains_rect (get_bounds path) r then
+          c <- path1_contains_path2 path (rect_as_path r) ;;
+          if c then
+            '(rs', es) <- add_rect (if start_locs_are_clockwise sl then [0; 1; 2; 3] else [3; 2; 1; 0])%nat rs [] ;;
+            Ok (sl, rs', es)
+          else Ok (sl, rs, [])
+        else Ok (sl, rs, [])
+      else Ok (sl, rs, [])
+    else if negb (is_inside loc) && (negb (loc_eqb loc first) || (2 <? length sl)%nat) then
+      '(loc', rs1) <- (match sl with [] => Ok (loc, rs) | _ => sl_corners loc sl rs end) ;;
+      if negb (loc_eqb loc' first) then
+        '(_, rs2) <- add_corner loc' (hcw loc' first) rs1 ;; Ok (sl, rs2, [])
+      else Ok (sl, rs1, [])
+    else Ok (sl, rs, []).
+
   (* RectClip64::ExecuteInternal: (start_locs_, results_, edges_ entries) *)
   Definition clip_internal_g : res (list location * results * list (nat * nat)) :=
     match path with
@@ -296,30 +317,11 @@ Section Internal.
       | None => Err ErrOOB
       | Some plast =>
         let '(b0, loc0) := getloc plast in
-        let run (starting_loc : location) :=
-          s <- clip_loop main_fuel (mkSt 0 starting_loc Inside Inside [] []) ;;
-          let loc := s_loc s in let first := s_first s in let sl := s_sl s in let rs := s_rs s in
-          if is_inside first then
-            if negb (is_inside starting_loc) then
-              if rect_contains_rect (get_bounds path) r then
-                c <- path1_contains_path2 path (rect_as_path r) ;;
-                if c then
-                  '(rs', es) <- add_rect (if start_locs_are_clockwise sl then [0; 1; 2; 3] else [3; 2; 1; 0])%nat rs [] ;;
-                  Ok (sl, rs', es)
-                else Ok (sl, rs, [])
-              else Ok (sl, rs, [])
-            else Ok (sl, rs, [])
-          else if negb (is_inside loc) && (negb (loc_eqb loc first) || (2 <? length sl)%nat) then
-            '(loc', rs1) <- (match sl with [] => Ok (loc, rs) | _ => sl_corners loc sl rs end) ;;
-            if negb (loc_eqb loc' first) then
-              '(_, rs2) <- add_corner loc' (hcw loc' first) rs1 ;; Ok (sl, rs2, [])
-            else Ok (sl, rs1, [])
-          else Ok (sl, rs, []) in
         if negb b0 then
           '(i, prev) <- back_boundary hi Inside ;;
           if (i =? 0)%nat then Ok ([], add_all 0 path [], [])
-          else run (if is_inside prev then Inside else loc0)
-        else run loc0
+          else clip_run (if is_inside prev then Inside else loc0)
+        else clip_run loc0
       end
     end.
 End Internal.
